@@ -9,7 +9,10 @@ Open Scope N_scope.
 
 (* 1. bookkeeping_inv: after EVERY sequence of atomic steps (every linearisation of concurrent
       Add/AddLocal/StrictlyAdd (SAdd), Remove and wash evictions (SRemove), wash promotions (SPromote), Fill (SFill),
-      pricing publications (SSetPricing)), with arbitrary arguments:
+      pricing publications (SSetPricing)), with arbitrary arguments.  Pooled objects have an identity (oid) distinct
+      from the tx hash; SPromote / SSetPricing carry the identity of the object wash captured when it started, so the
+      step list also covers "the tx was removed and submitted again while the wash was running" (finding F12: before
+      the repair in /repo promote tested presence by hash only — see bookkeeping_unguarded_refuted below):
         - no two pooled objects share a hash,
         - quota a = #objects with origin a + #objects with delegator a, and the entry is ABSENT exactly when that is 0,
         - pending cost of p = sum of the cost of the executable objects paid by p. *)
@@ -19,6 +22,27 @@ Theorem bookkeeping_inv (steps : list step) :
   (forall a, quota p a = if quota_of (objs p) a =? 0 then None else Some (quota_of (objs p) a)) /\
   (forall a, aget (cost p) a = cost_of (objs p) a).
 Proof. exact (bookkeeping_inv_thm steps). Qed.
+
+(* finding F12 (repaired in /repo by "fix: txpool promote must act on the pooled object itself"): with promote as it
+   was — presence by hash, then the CAPTURED object is marked and its cost added — the invariant is refuted by the
+   schedule Fill A; wash captures A and prices it; Remove; Add the same tx again (object B, cost counted); wash promotes
+   A: the payer's pending cost is twice what the pool implies and the residue stays after the tx has left. *)
+Theorem bookkeeping_unguarded_refuted :
+  exists (p : pool) (a : txobj),
+    inv p /\ ~ inv (fst (promote_unguarded p a)) /\
+    aget (cost (fst (remove_by_hash (fst (promote_unguarded p a)) (hash a)))) 10 = 100 /\
+    objs (fst (remove_by_hash (fst (promote_unguarded p a)) (hash a))) = [].
+Proof.
+  exists f12_pool, f12_A. destruct f12_refutes_unguarded as [A [B [_ [_ C]]]].
+  split; [exact A|]. split; [exact B|]. split; [exact C|]. vm_compute. reflexivity.
+Qed.
+
+(* on every pool where the captured object is still the pooled one the two promotes coincide: the repair changes
+   nothing else *)
+Theorem promote_unguarded_differs_only_when_stale p a :
+  (forall o, find_obj (hash a) (objs p) = Some o -> oid o = oid a) ->
+  promote_unguarded p a = promote p (hash a) (oid a).
+Proof. exact (promote_unguarded_same p a). Qed.
 
 (* no lock-out: once an account's transactions have left the pool its slot entry is gone *)
 Theorem no_lockout steps a : quota_of (objs (run steps)) a = 0 -> quota (run steps) a = None.
@@ -140,14 +164,14 @@ Theorem is_chain_synced_iff (T now blk : Z) :
 Proof. intro H. exact (PoolSyncProofs.is_chain_synced_iff T H now blk). Qed.
 
 (* ------------------------------------------------------------------ non-vacuity *)
-Definition ex_o (h o : N) (d : option N) := mkObj h o d false None h false.
+Definition ex_o (h o : N) (d : option N) := mkObj h o d false None h false h.
 Definition ex_steps : list step :=
   [ SAdd (ex_o 1 10 None) true (Some (mkPricing 10 500 7)) 16 (fun _ => 100000);
     SAdd (ex_o 2 10 (Some 20)) true (Some (mkPricing 20 300 9)) 16 (fun _ => 100000);
     SAdd (ex_o 3 11 (Some 20)) false None 16 (fun _ => 0);
     SFill [ex_o 4 10 None; ex_o 2 10 (Some 20)];
-    SSetPricing 3 (mkPricing 20 250 8);
-    SPromote 3;
+    SSetPricing 3 3 (mkPricing 20 250 8);
+    SPromote 3 3;
     SRemove 1;
     SAdd (ex_o 5 12 None) true (Some (mkPricing 12 99999999 1)) 16 (fun _ => 10) ].
 
@@ -159,7 +183,7 @@ Proof. vm_compute. repeat split; reflexivity. Qed.
 
 Example sorted_example :
   map hash (snd (fst (publish (run ex_steps) (fun _ => 100000)
-                              (sort_desc (objs (run (ex_steps ++ [SSetPricing 4 (mkPricing 10 5 8)]))))))) = [2; 4; 3].
+                              (sort_desc (objs (run (ex_steps ++ [SSetPricing 4 4 (mkPricing 10 5 8)]))))))) = [2; 4; 3].
 Proof. vm_compute. reflexivity. Qed.
 
 (* a wash over the example pool: object 4 blocked, object 2 fails Evaluate (class 2), object 3 stays executable *)
@@ -183,6 +207,8 @@ Example admission_example :
 Proof. vm_compute. repeat split; reflexivity. Qed.
 
 Print Assumptions bookkeeping_inv.
+Print Assumptions bookkeeping_unguarded_refuted.
+Print Assumptions promote_unguarded_differs_only_when_stale.
 Print Assumptions no_lockout.
 Print Assumptions empty_pool_clean.
 Print Assumptions holds_everywhere.
